@@ -208,6 +208,7 @@ func init() {
 				}
 				// re-declare with the tighter interval for the executor
 				nt := ex.ts.Var(t.Name+"_nz", 64, 1, uint64(hi))
+				ex.auxVars = append(ex.auxVars, nt)
 				ex.assume(ex.ts.Eq(nt, t))
 				t = nt
 			}
@@ -292,6 +293,15 @@ func init() {
 		"MarkShared": func(ex *Exec, fn *ssa.Function, args []Value, caller *Frame) Value {
 			ex.markShared(args[1], "shared")
 			return nil
+		},
+		"Or": func(ex *Exec, fn *ssa.Function, args []Value, caller *Frame) Value {
+			return ex.ts.Or(args[1].(*Term), args[2].(*Term))
+		},
+		"And": func(ex *Exec, fn *ssa.Function, args []Value, caller *Frame) Value {
+			return ex.ts.And(args[1].(*Term), args[2].(*Term))
+		},
+		"Implies": func(ex *Exec, fn *ssa.Function, args []Value, caller *Frame) Value {
+			return ex.ts.Or(ex.ts.BNot(args[1].(*Term)), args[2].(*Term))
 		},
 		"TrackFootprint": func(ex *Exec, fn *ssa.Function, args []Value, caller *Frame) Value {
 			ex.trackFoot = args[1].(*Term).IsTrue()
